@@ -63,6 +63,11 @@ def post_checks(L, f, quals):
 def compare_result(L, p, f, quals, type_bytes):
     I = L.I
     acc = accessors(I, 'Shape', p)
+    L.in_c04 = True          # (C04 reuses this family and keeps only the obligations raised in this span)
+    try:
+        chk_invariants(L, 'Shape', p, acc, builtin=False)      # C04 for user-supplied type parameters
+    finally:
+        L.in_c04 = False
     def opt(b):
         return b if b else None
     for key, name in (('ns', 'namespace'), ('name', 'name'), ('ver', 'version'), ('sub', 'subpath')):
@@ -77,11 +82,6 @@ def compare_result(L, p, f, quals, type_bytes):
         return acc
     L.check('qualifiers == hook\'s qualifiers with empty ones removed and checksum canonicalised',
             b_and(*[b_and(bytes_eq_term(k1, k2), bytes_eq_term(v1, v2)) for (k1, v1), (k2, v2) in zip(acc['quals'], quals)]))
-    L.in_c04 = True          # (C04 reuses this family and keeps only the obligations raised in this span)
-    try:
-        chk_invariants(L, 'Shape', p, acc, builtin=False)      # C04 for user-supplied type parameters
-    finally:
-        L.in_c04 = False
     return acc
 
 
